@@ -21,10 +21,17 @@ def worker(q, outf, lock):
             orig = open(fp).read()
             lines = orig.split("\n")
             line = lines[m["line"] - 1]
-            if line[m["col"]:m["col"] + len(m["old"])] != m["old"]:
+            if "new_lines" in m:
+                stale = line.strip()[:140] != m["text"]
+            else:
+                stale = line[m["col"]:m["col"] + len(m["old"])] != m["old"]
+            if stale:
                 res = dict(m, outcome="stale")
             else:
-                lines[m["line"] - 1] = line[:m["col"]] + m["new"] + line[m["col"] + len(m["old"]):]
+                if "new_lines" in m:
+                    lines[m["line"] - 1:m["end"]] = m["new_lines"]
+                else:
+                    lines[m["line"] - 1] = line[:m["col"]] + m["new"] + line[m["col"] + len(m["old"]):]
                 open(fp, "w").write("\n".join(lines))
                 p = subprocess.run([sys.executable, os.path.join(HERE, "tools", "check_all.py"), "--repo", repo], env=env, capture_output=True, text=True)
                 try:
